@@ -455,11 +455,13 @@ func runC20(c *mon.Ctx) {
 			// some pre-existing names, valid and invalid
 			pre := make([]string, n)
 			for i := 1; i < n; i++ {
-				switch r.IntN(5) {
+				switch r.IntN(6) {
 				case 0:
 					pre[i] = fmt.Sprintf("nm%d", r.IntN(n))
 				case 1:
 					pre[i] = "bad name"
+				case 2:
+					pre[i] = []string{".notdef", "orn001", "orn002", "space"}[r.IntN(4)]
 				}
 				o3.Glyphs[i].Name = pre[i]
 			}
